@@ -84,9 +84,12 @@ def o_C01(tr: Trace, c: Cfg) -> Fails:
         f.add(f"C01:{kind}:wrong-file", {"expected": F.hex(), "got": None if got is None else got.hex(),
                                          "event": e.line[:200], "out": e.out[:300]}, e.idx)
 
+    emit_fs: dict = dfs            # filestore when the PDUs now in the queue were generated
     for e in tr.ev:
         if e.h == "D":
             dfs = e.fs
+            if e.op != "get" and e.st.ok and (e.prev is None or e.st.rdy > e.prev.rdy):
+                emit_fs = e.fs
             for x in e.inds:
                 n, p = ind_parts(x)
                 if n == "finished" and is_success(p[1], p[2], p[3]):
@@ -94,7 +97,11 @@ def o_C01(tr: Trace, c: Cfg) -> Fails:
             if e.pdu and pdu_kind(e.pdu) == "fin":
                 q = pdu_fields(e.pdu)
                 if is_success(q["cond"], q["deliv"], q["fstat"]):
+                    # the claim is made when the Finished PDU is generated (what happens to the file
+                    # afterwards, e.g. a later transaction, is not part of it)
+                    cur, dfs = dfs, emit_fs
                     check("finished-pdu", e)
+                    dfs = cur
         elif e.h == "S" and (c.eff_mode == "A" or c.eff_closure):
             for x in e.inds:
                 n, p = ind_parts(x)
@@ -610,6 +617,7 @@ def o_C08(tr: Trace, c: Cfg, h: str = "S") -> Fails:
 def o_C10(tr: Trace) -> Fails:
     f = Fails()
     qlen = {h: 0 for h in tr.kinds}
+    empty: dict[str, bool] = {}
     for e in tr.ev:
         if e.h is None or e.h not in qlen:
             continue
@@ -625,10 +633,19 @@ def o_C10(tr: Trace) -> Fails:
                 qlen[h] = max(0, qlen[h] + e.st.rdy - before.rdy)
         elif e.st.ok:
             qlen[h] = max(0, e.st.rdy)
+        was_empty = empty.get(h, False)
+        if e.op == "get" and e.st.ok and e.st.ret == "None":
+            empty[h] = True
+        elif e.op in ("sm", "put", "cancel", "reset"):
+            empty[h] = False if not (e.op == "reset" and tr.kinds[h] == "src") else True
         if e.exc is None:
             continue
         inp = pdu_kind(e.inp) if e.inp else "-"
         step = before.step if before else "IDLE"
+        if e.exc == "UnretrievedPdusToBeSent" and was_empty:
+            f.add(f"C10:unretrieved-raised-after-queue-was-drained:{tr.kinds[h]}:{e.op}",
+                  {"op": e.line[:240], "out": e.out[:200]}, e.idx)
+            continue
         if e.exc not in PROTOCOL_EXC:
             f.add(f"C10:internal-error:{e.exc}:{tr.kinds[h]}:{e.op}:{step}:{inp}", {"op": e.line[:240], "out": e.out[:200]}, e.idx)
         elif e.exc == "UnretrievedPdusToBeSent" and q_before == 0:
@@ -680,6 +697,16 @@ def o_C12(tr: Trace, c: Cfg) -> Fails:
                 nxt = next((x for x in rest if x.op == "get" and x.pdu is not None), None)
                 abandoned = any(x.startswith("abandon(") for x in e.flts)
                 if abandoned:
+                    # legitimate only while a cancellation of THIS transaction is already in progress
+                    started = False
+                    for x in reversed(evs[:i]):
+                        if x.op == "put" and x.st.ret == "true":
+                            break
+                        if (x.op == "cancel" and x.st.ret == "true") or any(y.startswith("cancel(") for y in x.flts):
+                            started = True
+                            break
+                    if not started:
+                        f.add("C12:cancel-abandoned-without-cancellation-in-progress", {"flt": e.flts}, e.idx)
                     continue
                 if nxt is None or pdu_kind(nxt.pdu) != "eof":
                     f.add("C12:next-pdu-after-cancel-not-eof", {"next": nxt.pdu[:160] if nxt else None}, e.idx)
@@ -924,7 +951,19 @@ def o_C19(tr: Trace, h: str = "S") -> Fails:
             prov = [int(w[2]), int(w[3])]
     tids = []
     pending = None          # parameters of the accepted put request awaiting its Metadata PDU
+    last_tx_seq = None
     for i, e in enumerate(evs):
+        if not e.st.ok:
+            continue
+        for x in e.inds:
+            if x.startswith("tx(") and prov is not None:
+                # every transaction start takes the provider's next value
+                t = ind_parts(x)[1][0]
+                got = id_val(t.split(":")[1])
+                if got != prov[1]:
+                    f.add("C19:sequence-number-not-next-provider-value", {"ind": x, "expected": prov[1]}, e.idx)
+                last_tx_seq = got
+                prov[1] = (got + 1) % (2 ** prov[0])
         if e.op == "put":
             args = dict(x.split("=", 1) for x in e.line.split()[2:])
             busy = e.prev is not None and e.prev.state == "BUSY"
@@ -956,11 +995,9 @@ def o_C19(tr: Trace, h: str = "S") -> Fails:
             if q["mode"] != mode or q["closure"] != closure:
                 f.add(f"C19:mode-closure-resolution:req={pending['mode']}{pending['closure']}:mib={rc['mode']}{rc['closure']}:"
                       f"got={q['mode']}{q['closure']}", {"pdu": e.pdu[:200]}, e.idx)
-            if prov is not None:
-                want_seq = prov[1]
-                prov[1] = (prov[1] + 1) % (2 ** prov[0])
-                if id_val(q["seq"]) != want_seq or int(q["seq"].split("/")[1]) != prov[0] // 8:
-                    f.add("C19:sequence-number-not-next-provider-value", {"pdu": e.pdu[:160], "expected": want_seq}, e.idx)
+            if prov is not None and last_tx_seq is not None:
+                if id_val(q["seq"]) != last_tx_seq or int(q["seq"].split("/")[1]) != prov[0] // 8:
+                    f.add("C19:metadata-sequence-number-differs-from-transaction", {"pdu": e.pdu[:160]}, e.idx)
             t = (q["src"], q["seq"])
             if t in tids and (prov is None or len(tids) < 2 ** prov[0]):
                 f.add("C19:transaction-id-reused", {"pdu": e.pdu[:160]}, e.idx)
